@@ -920,6 +920,12 @@ static Token *skip_excess_element(Token *tok) {
 
 // string-initializer = string-literal
 static void string_initializer(Token **rest, Token *tok, Initializer *init) {
+  // The elements are copied out of the literal in units of the array's
+  // element size, so the two element sizes must agree (`char16_t x[] = "ab"`
+  // would read past the end of the literal's buffer).
+  if (init->ty->base->size != tok->ty->base->size)
+    error_tok(tok, "array of inappropriate type initialized from string constant");
+
   if (init->is_flexible)
     *init = *new_initializer(array_of(init->ty->base, tok->ty->array_len), false);
 
